@@ -45,7 +45,8 @@ NameOK(S, f)     == IsNull(S.name) \/ (~IsNull(f.name) /\ f.name = S.name)
 NullableOK(S, f) == S.nullable \/ ~HasNull(f.cells)
 UniqueOK(S, f)   == ~S.unique \/ ~HasDup(f.cells)
 ChecksOK(S, f)   == \A k \in 1..Len(S.checks) :
-                       S.checks[k].warn \/ CheckSat(S.checks[k], f.cells)
+                       /\ ~CheckRaises(S.checks[k], f.pd, f.cells)      \* a raising check is a failed check
+                       /\ S.checks[k].warn \/ CheckSat(S.checks[k], f.cells)
 FieldSat(S, f) == /\ NameOK(S, f)
                   /\ NullableOK(S, f)
                   /\ UniqueOK(S, f)
@@ -97,7 +98,8 @@ CoreDtype(S, f) ==
 CoreCheck(S, f, k) ==
   LET c == S.checks[k]
       r == RunCheckOnField(c, f.cells)
-  IN IF r.passed \/ c.warn THEN <<>>
+  IN IF CheckRaises(c, f.pd, f.cells) THEN << ErrScalar("CHECK_ERROR", k - 1, "") >>
+     ELSE IF r.passed \/ c.warn THEN <<>>
      ELSE IF r.scalar THEN << ErrScalar("DATAFRAME_CHECK", k - 1, "False") >>
           ELSE << ErrCells("DATAFRAME_CHECK", k - 1, r.pos, f.cells) >>
 
@@ -113,7 +115,8 @@ FieldErrors(S, f) ==
 (* warnings emitted: indexes of raise_warning checks that would have failed *)
 FieldWarnings(S, f) ==
   { k - 1 : k \in { j \in 1..Len(S.checks) :
-                      S.checks[j].warn /\ ~RunCheckOnField(S.checks[j], f.cells).passed } }
+                      /\ S.checks[j].warn /\ ~CheckRaises(S.checks[j], f.pd, f.cells)
+                      /\ ~RunCheckOnField(S.checks[j], f.cells).passed } }
 
 (* positions -> index labels *)
 Labelled(errs, idx) ==
